@@ -426,7 +426,7 @@ func (rl *Shell) viMatchBracket() {
 	switch {
 	case len(split) == 0:
 		return
-	case pos == 0:
+	case pos == 0 && len(split) > index:
 		adjust = len(split[index])
 	default:
 		adjust = pos * -1
